@@ -245,19 +245,41 @@ def traced_facts(prog: Program, interp: Interp, cr: ClientRoles) -> Tuple[Dict[s
                          f'begin, the attempt and the completion event must share one trace context; found {sorted(ctx_vars)}'))
     else:
         cv = next(iter(ctx_vars))
+        from ..flow import Flow
+        fl = Flow(cfg)
         defs = [n for n in cfg.stmt_nodes() if cv in assigned_names(n)]
-        if len(defs) != 1 or not cfg.dominated_by([x for x in cfg.nodes if x.id in loops][0], defs):
+        event_heads = [x for x in cfg.nodes if x.id in loops]
+        first = event_heads[0]
+        # the context is fixed before the first event and never rebound afterwards (one object for begin, attempt, end / error)
+        late = [d for d in defs if any(d.id in cfg.reachable(h) for h in event_heads)]
+        if not defs or late or not cfg.dominated_by(first, defs):
             problems.append(('TRACE-CTX', 'trace context reassigned', f.node.lineno,
-                             f'`{cv}` is assigned {len(defs)} times: the same context object must reach every event'))
-        elif isinstance(defs[0].ast, ast.Assign):
-            v = defs[0].ast.value
+                             f'`{cv}` is assigned {len(defs)} times{" (also after an event was sent)" if late else ""}: the same context object must reach every event'))
+        else:
             caller = f.params[2].arg if len(f.params) > 2 else '_trace_ctx'
-            src_ok = isinstance(v, ast.BoolOp) and isinstance(v.op, ast.Or) and dotted(v.values[0]) == caller
-            src_ok = src_ok or (isinstance(v, ast.IfExp) and caller in norm(v))
-            facts['ctx_source'] = 'caller-supplied or fresh' if src_ok else norm(v)
+            alts = fl.alts(first, ast.Name(id=cv, ctx=ast.Load()), boolops=True)
+            given = fresh = False
+            other = []
+            for al in alts:
+                st = None
+                for c, pol in al.guards:
+                    k = classify_cond(prog, f, c)
+                    if k.subject == caller and k.kind == 'truthy':
+                        st = (not k.negated) == pol
+                    elif k.subject == caller and k.kind == 'is-none':
+                        st = k.negated == pol
+                if dotted(al.expr) == caller and st is True:
+                    given = True
+                elif isinstance(al.expr, ast.Call) and st is False:
+                    fresh = True
+                else:
+                    other.append(al.text()[:60])
+            src_ok = given and fresh and not other
+            facts['ctx_source'] = 'caller-supplied or fresh' if src_ok else ' | '.join(al.text()[:50] for al in alts)
             if not src_ok:
                 problems.append(('TRACE-CTX', 'caller-supplied trace context ignored', defs[0].line,
-                                 f'`{norm(defs[0].ast)}`: a caller-supplied `{caller}` must be used when given'))
+                                 f'the trace context is {" | ".join(al.text()[:60] for al in alts)}: a caller-supplied `{caller}` must be used when '
+                                 f'given, a fresh context otherwise'))
     # END receives the response of the attempt, ERROR the exception
     resp_vars = set()
     for nid in call_nodes:
@@ -557,6 +579,8 @@ def retry_loop_facts(prog: Program, outer: FuncInfo, w: FuncInfo, func_ret: Froz
     conds = set()
     for n in code_next:
         for g in guard_edges(cfg, n):
+            if isinstance(g.src.ast, ast.Constant):
+                continue            # `while True:` — not a condition
             ckd = classify_cond(prog, w, g.src.ast)
             txt = norm(g.src.ast).replace(strat_param, '<strategy>')
             pos = (g.label == 'T')
@@ -637,7 +661,16 @@ def backoff_facts(prog: Program) -> Tuple[Dict[str, Any], List[Problem]]:
         if call is None:
             problems.append(('BACKOFF-BOUND', f'{ci.name} has no __call__', ci.node.lineno, f'{ci.name} does not produce delays'))
             continue
-        gens = [g for g in call.nested.values()] or [call]
+        gens = [g for g in call.nested.values()]
+        if not gens:
+            # the generator may be a method of its own: `return self._iter_delays()`
+            for x in walk_own(call.node):
+                if isinstance(x, ast.Return) and isinstance(x.value, ast.Call) and isinstance(x.value.func, ast.Attribute) and \
+                        dotted(x.value.func.value) == 'self' and not x.value.args and not x.value.keywords:
+                    m_ = prog.find_method(ci, x.value.func.attr)
+                    if m_ is not None and any(isinstance(y, (ast.Yield, ast.YieldFrom)) for y in walk_own(m_.node)):
+                        gens.append(m_)
+        gens = gens or [call]
         g = gens[0]
         cfg = CFG(g, prog)
         yields = [n for n in cfg.stmt_nodes() if any(isinstance(x, (ast.Yield, ast.YieldFrom)) for frag in node_exprs(n) for x in walk_no_defs(frag))]
